@@ -18,7 +18,7 @@ it, even if those do not overlap each other), (2) the deadline / precedence rows
 start variable of a task that is *not* placed, so one hopeless task makes the whole model
 infeasible.  `hopeless_counterexample` proves (2) on a concrete instance.
 -/
-import ErdosVerif.Lemmas.IlpCapacity
+import ErdosVerif.Lemmas.IlpComplete
 import ErdosVerif.Props.C12_Ilp
 namespace ErdosVerif.C14_Ilp
 open ErdosVerif.Mip ErdosVerif.Ilp ErdosVerif.IlpSpec
@@ -479,6 +479,90 @@ theorem pairwise_counterexample : ¬ ilp_complete_full pairInst := by
   have := pair_objective_le_two hs
   rw [ho, pairPlan_goodput] at this
   omega
+
+/-! ### Completeness for the as-coded reading -/
+
+open FullPlan in
+/-- **`ilp_complete_partial`.** Full statement (false, see the two counterexamples above):
+every `ValidPlan` extends to a feasible point with objective = goodput.  Proved instead: every
+full plan valid in the *as-coded* reading (`FullPlan.ValidFull`: a start within the bounds and
+deadline row for every task, placed or not; precedence rows; all-graph-parents rule; pairwise
+capacity rows with `Overlap` = "closed intervals meet and not ancestor/descendant") extends to a
+feasible point of `gen inst` — every auxiliary variable can be chosen consistently. -/
+theorem ilp_complete_partial {I : Inst} {fp : FullPlan} (hv : ValidFull I fp)
+    (hwr : I.wfRunning = true) (hwp : I.wfParents = true) : sat (sigmaOf I fp) (gen I) :=
+  ⟨vars_ok hv, constrs_hold hv hwr hwp⟩
+
+open FullPlan in
+/-- … and that point scores the number of graphs whose reward tasks are placed by the plan. -/
+theorem complete_objective {I : Inst} (fp : FullPlan) (hg : I.goalSlack = false) :
+    objective (sigmaOf I fp) (gen I) =
+      (((List.range I.graphs.length).filter (graphDone I fp)).length : Nat) := by
+  unfold objective gen
+  simp only [Inst.obj, hg, Bool.false_eq_true, ↓reduceIte, QuadExpr.eval_ofLin, LinExpr.eval_sumL,
+    List.map_map, Function.comp_def, LinExpr.eval_ofVar]
+  rw [← isum_indicator_length]
+  apply isum_map_eq
+  intro gi _
+  rfl
+
+open FullPlan in
+/-- Hence no as-coded-valid full plan finishes more graphs than the best feasible point: if `m`
+bounds the objective over feasible points, it bounds the as-coded goodput. -/
+theorem complete_bound {I : Inst} {fp : FullPlan} (hv : ValidFull I fp) (hwr : I.wfRunning = true)
+    (hwp : I.wfParents = true) (hg : I.goalSlack = false) {m : Int}
+    (hm : ∀ σ, sat σ (gen I) → objective σ (gen I) ≤ m) :
+    (((List.range I.graphs.length).filter (graphDone I fp)).length : Nat) ≤ m := by
+  rw [← complete_objective fp hg]
+  exact hm _ (ilp_complete_partial hv hwr hwp)
+
+/-- Non-vacuity of `ilp_complete_partial`: the single-task instance of C12 with the slow
+strategy started at 4 is a valid full plan. -/
+def exFull : FullPlan := ⟨fun _ => 4, fun t => if t = 0 then some (0, 1) else none⟩
+
+theorem exFull_valid : FullPlan.ValidFull C12_Ilp.exInst exFull where
+  placeWf := by
+    intro t w s ht hr hp
+    have : t = 0 := by simp [Inst.nT, C12_Ilp.exInst] at ht; omega
+    subst this
+    have : (w, s) = (0, 1) := by simpa [exFull] using hp.symm
+    cases this; decide
+  startLb := by
+    intro t ht hr
+    have : t = 0 := by simp [Inst.nT, C12_Ilp.exInst] at ht; omega
+    subst this; decide
+  deadline := by
+    intro t ht hr he
+    have : t = 0 := by simp [Inst.nT, C12_Ilp.exInst] at ht; omega
+    subst this; decide
+  required := by
+    intro t ht hr hs
+    have : t = 0 := by simp [Inst.nT, C12_Ilp.exInst] at ht; omega
+    subst this; simp [Inst.task, C12_Ilp.exInst] at hs
+  prec := by
+    intro c p w s hc hr hp
+    have : c = 0 := by simp [Inst.nT, C12_Ilp.exInst] at hc; omega
+    subst this
+    have : C12_Ilp.exInst.parentVars 0 = [] := by decide
+    simp [this] at hp
+  parents := by
+    intro c hc hr hne
+    have : c = 0 := by simp [Inst.nT, C12_Ilp.exInst] at hc; omega
+    subst this
+    have : (C12_Ilp.exInst.parentVars 0).isEmpty = true := by decide
+    rw [this] at hne; cases hne
+  capacity := by
+    intro t1 w r ht hw hs hr
+    have h1 : t1 = 0 := by simp [Inst.nT, C12_Ilp.exInst] at ht; omega
+    have h2 : w = 0 := by simp [Inst.nW, C12_Ilp.exInst] at hw; omega
+    subst h1; subst h2
+    have h3 : r = "CPU" := by
+      have : (C12_Ilp.exInst.worker 0).types = ["CPU"] := by decide
+      simpa [this] using hr
+    subst h3; decide
+
+example : sat (FullPlan.sigmaOf C12_Ilp.exInst exFull) (gen C12_Ilp.exInst) :=
+  ilp_complete_partial exFull_valid (by decide) (by decide)
 
 /-! ### Non-vacuity of soundness -/
 
